@@ -569,7 +569,12 @@ fn op_step(hdr: Vec<u8>, recs: Vec<Vec<u8>>, cap: usize) -> String {
         }
     }
     out.push(if ended { "done".to_string() } else { "cap".to_string() });
-    out.push(if plain == proj { "plain=ok".to_string() } else { "plain=differ".to_string() });
+    // `plain` was drained with take(cap): cap items means it did not end by itself
+    out.push(if plain == proj {
+        "plain=ok".to_string()
+    } else {
+        format!("plain=differ:{}:{}", plain.len(), if plain.len() >= cap { "endless" } else { "ended" })
+    });
     out.join(" ; ")
 }
 
